@@ -25,6 +25,53 @@ type ActCase struct {
 	Up      prog.Program `json:"up"`
 	G       []float64    `json:"g,omitempty"`
 	Fan     int          `json:"fan,omitempty"` // consumers of the activation output (weightedRoot)
+	// Other: a second activation object of the same kind with a different configuration is
+	// constructed before (1) or after (2) the checked one and evaluates every input right
+	// before the checked object does; what the checked object returns must not depend on it
+	Other int `json:"other,omitempty"`
+	// FirstRank: before anything else the object evaluates an input of another rank: 1 = the
+	// trailing dim()+1 dimensions of the input's shape (so that the configured dimension is its
+	// last), 2 = the input's shape with a leading dimension of 2 added
+	FirstRank int `json:"first_rank,omitempty"`
+	// ResetLeaves (C15): every tracked leaf is reset to a fresh tracked leaf after the forward
+	// pass, right before BackPropagate
+	ResetLeaves bool `json:"reset_leaves,omitempty"`
+}
+
+// firstOtherRank makes the activation object evaluate an input of another rank (C14 / C15).
+func (c ActCase) firstOtherRank(fw func(x tensor.Tensor) (tensor.Tensor, error), shape []int) *Failure {
+	var s []int
+	switch c.FirstRank {
+	case 1:
+		k := c.dim() + 1
+		if c.Kind != "softmax" {
+			k = 1
+		}
+		if k >= len(shape) {
+			return nil
+		}
+		s = ref.Cp(shape[len(shape)-k:])
+	case 2:
+		if len(shape) >= 6 {
+			return nil
+		}
+		s = append([]int{2}, shape...)
+	default:
+		return nil
+	}
+	v := make([]float64, ref.Prod(s))
+	for i := range v {
+		v[i] = 0.25*float64(i%9) - 1
+	}
+	y, err := fw(lib.MustNew(s, v, false))
+	if err != nil {
+		return failf("%s.Forward (dim %d) rejected an input of shape %v: %v", c.Kind, c.dim(), s, err)
+	}
+	if ys := y.Shape(); !ref.EqShape(ys, s) {
+		return failf("%s.Forward (dim %d) returned shape %v for an input of shape %v", c.Kind, c.dim(), ys, s)
+	}
+	evid.Class("C14_15.object_first_serves_another_rank")
+	return nil
 }
 
 func init() {
@@ -48,6 +95,44 @@ func (c ActCase) dim() int {
 // layer constructs one activation object and returns its Forward; callers keep using the
 // same object for every round of a case.
 func (c ActCase) layer() (func(x tensor.Tensor) (tensor.Tensor, error), error) {
+	var other func(x tensor.Tensor) (tensor.Tensor, error)
+	if c.Other == 1 {
+		other = c.otherLayer()
+	}
+	main, err := c.layer1()
+	if err != nil {
+		return nil, err
+	}
+	if c.Other == 2 {
+		other = c.otherLayer()
+	}
+	if other == nil {
+		return main, nil
+	}
+	return func(x tensor.Tensor) (tensor.Tensor, error) {
+		_, _ = other(x) // may reject the input (another Softmax dimension): irrelevant here
+		return main(x)
+	}, nil
+}
+
+// otherLayer constructs an activation of the same kind with another configuration.
+func (c ActCase) otherLayer() func(x tensor.Tensor) (tensor.Tensor, error) {
+	o := c
+	o.Other = 0
+	o.NilConf = false
+	o.M = c.slope() + 0.5
+	o.Dim = 1
+	if c.dim() != 0 {
+		o.Dim = 0
+	}
+	f, err := o.layer1()
+	if err != nil {
+		return func(x tensor.Tensor) (tensor.Tensor, error) { return nil, err }
+	}
+	return f
+}
+
+func (c ActCase) layer1() (func(x tensor.Tensor) (tensor.Tensor, error), error) {
 	switch c.Kind {
 	case "relu":
 		l := activations.NewRelu()
@@ -125,6 +210,12 @@ func genActShape(t *rapid.T, c *ActCase) []int {
 	}
 	s := prog.DrawShapeN(t, minRank, 5, 4, maxActElems, rapid.Bool().Draw(t, "distinctdims"))
 	c.NilConf = rapid.IntRange(0, 4).Draw(t, "nilconf") == 0
+	if rapid.IntRange(0, 2).Draw(t, "otherobject") == 0 {
+		c.Other = rapid.IntRange(1, 2).Draw(t, "otherwhen")
+	}
+	if rapid.IntRange(0, 2).Draw(t, "firstrank") == 0 {
+		c.FirstRank = rapid.IntRange(1, 2).Draw(t, "firstrankkind")
+	}
 	if c.Kind == "leaky" {
 		c.M = rapid.SampledFrom([]float64{0.01, 0.2, 0, 1, -0.5, 3, 1e-6}).Draw(t, "m")
 	}
@@ -166,6 +257,9 @@ func checkC14(c ActCase) *Failure {
 	fw, err := c.layer()
 	if err != nil {
 		return failf("constructor of %s rejected a valid configuration: %v", c.Kind, err)
+	}
+	if f := c.firstOtherRank(fw, l.Shape); f != nil {
+		return f
 	}
 	// a first call on other data of the same shape, then the call under test on the same object
 	warm := make([]float64, len(l.Vals))
@@ -239,6 +333,9 @@ func checkC14(c ActCase) *Failure {
 	}
 	evid.Eval()
 	evid.Class("C14.kind=" + c.Kind)
+	if c.Other > 0 {
+		evid.Class("C14.second_object_with_other_configuration")
+	}
 	evid.Class(fmt.Sprintf("C14.rank=%d", len(l.Shape)))
 	nt := len(l.Shape) >= 2
 	if c.Kind == "softmax" {
@@ -291,7 +388,7 @@ func genC15(t *rapid.T) ActCase {
 		}
 		c.Up = prog.Program{Leaves: []prog.Leaf{{Shape: s, Vals: v, Tracked: true}}}
 	} else {
-		cfg := prog.DefaultCfg([]string{"scale", "mul", "add", "sub", "tanh", "sin", "pow", "cos", "mul", "scale", "exp"})
+		cfg := prog.DefaultCfg([]string{"scale", "mul", "add", "sub", "tanh", "sin", "pow", "cos", "mul", "scale", "exp", "flatten", "flatten", "reshape"})
 		cfg.MaxElems = 200
 		g := prog.NewGen(t, cfg)
 		nl := rapid.IntRange(1, 3).Draw(t, "nleaves")
@@ -321,6 +418,7 @@ func genC15(t *rapid.T) ActCase {
 	}
 	c.G = drawWeights(t, n)
 	c.Fan = drawFan(t)
+	c.ResetLeaves = rapid.IntRange(0, 4).Draw(t, "resetleaves") == 0
 	return c
 }
 
@@ -392,6 +490,9 @@ func checkC15(c ActCase) *Failure {
 	if err != nil {
 		return nil
 	}
+	if f := c.firstOtherRank(fw, lo.vals[xid].Shape); f != nil {
+		return f
+	}
 	// warm-up round on the same object: forward and back-propagate other data of this shape
 	{
 		wl, err := prog.RunLib(c.Up)
@@ -424,6 +525,14 @@ func checkC15(c ActCase) *Failure {
 	z, err := weightedRoot(y, lo.y.Shape, c.G, c.Fan)
 	if err != nil {
 		return failf("weighting the activation output failed: %v", err)
+	}
+	if c.ResetLeaves {
+		for i, l := range c.Up.Leaves {
+			if l.Tracked {
+				lv[i].ResetGradContext(true) // "zero the gradients, then backward"
+			}
+		}
+		evid.Class("C15.leaves_reset_between_forward_and_backward")
 	}
 	if err := tensor.BackPropagate(z); err != nil {
 		return failf("BackPropagate through %s returned error: %v", c.Kind, err)
@@ -493,6 +602,9 @@ func checkC15(c ActCase) *Failure {
 	}
 	evid.Eval()
 	evid.Class("C15.kind=" + c.Kind)
+	if c.Other > 0 {
+		evid.Class("C15.second_object_with_other_configuration")
+	}
 	nt := false
 	if len(c.Up.Nodes) > 0 {
 		evid.Class("C15.input_is_interior_node")
